@@ -2,10 +2,10 @@ CONSTANTS
   Radius = 40
   MaxB8 = 5
   MaxB16 = 6
-  MaxB32 = 6
-  U8A = {0, 65, 127, 128, 143, 144, 159, 160, 191, 192, 193, 194, 223, 224, 225, 237, 239, 240, 243, 244, 245, 248, 255}
-  U16A = {0, 65, 215, 216, 219, 220, 223, 224, 255}
-  U32A = {0, 1, 15, 16, 17, 215, 216, 220, 223, 224, 255}
+  MaxB32 = 7
+  U8A = {65, 127, 128, 143, 144, 159, 160, 191, 192, 194, 224, 237, 239, 240, 244, 245}
+  U16A = {0, 65, 215, 216, 219, 220, 223, 224}
+  U32A = {0, 1, 16, 17, 216, 255}
   AscA = {0, 65, 127, 128, 255}
   Full = FALSE
 INIT Init
